@@ -390,6 +390,57 @@ func writerBigCases(r *rng.R) {
 	}
 }
 
+// splitHugeChunkCases: one chunk of the size of a large valid frame (up to the decoder's 64 MiB
+// frame limit) arrives split over many messages. The assembler must deliver exactly its bytes,
+// count one chunk and report no error, however its accumulator grows. Harness oracle only.
+func splitHugeChunkCases(r *rng.R) {
+	type cfg struct{ total, part int }
+	cfgs := []cfg{{pkg.FrameSizeLimit - 100, 1 << 20}}
+	if os.Getenv("VERIF_TIER") == "thorough" {
+		cfgs = append(cfgs, cfg{60 << 20, 4 << 20}, cfg{60 << 20, 1 << 20}, cfg{50<<20 + r.Intn(1<<20), 3<<20 + r.Intn(1000)}, cfg{40 << 20, 64 << 10})
+	}
+	for i, c := range cfgs {
+		name := fmt.Sprintf("split-huge-%d", i)
+		note("case %s", name)
+		note("nontrivial %x", uint64(c.total)^uint64(c.part))
+		chunk := make([]byte, c.total)
+		for x := 0; x < len(chunk); x += 251 {
+			chunk[x] = byte(r.U64())
+		}
+		var msgs []msg
+		for o := 0; o < len(chunk); o += c.part {
+			e := o + c.part
+			if e > len(chunk) {
+				e = len(chunk)
+			}
+			msgs = append(msgs, msg{chunk[o:e], e == len(chunk)})
+		}
+		msgs = append(msgs, msg{[]byte{1, 2, 3}, true})
+		stats["huge-split-messages"] += len(msgs)
+		asm := stefgrpc.VerifNewChunkAssembler(&scripted{msgs: msgs})
+		var all []byte
+		var rerr error
+		buf := make([]byte, 1<<20+r.Intn(4096))
+		for step := 0; step < 4096; step++ {
+			k, err := asm.Read(buf)
+			all = append(all, buf[:k]...)
+			if err != nil {
+				rerr = err
+				break
+			}
+		}
+		want := append(append([]byte(nil), chunk...), 1, 2, 3)
+		if rerr != io.EOF {
+			propFail("C15 split-chunk-error case=%s one chunk of %d bytes (below pkg.FrameSizeLimit) split into messages of %d bytes, the last one marked end of chunk, then a 3 byte chunk: Read returned %v after delivering %d bytes", name, c.total, c.part, rerr, len(all))
+		} else if !bytes.Equal(all, want) {
+			propFail("C15 bytes-changed case=%s one chunk of %d bytes split into messages of %d bytes: assembler delivered %d bytes, want %d", name, c.total, c.part, len(all), len(want))
+		}
+		if st := asm.Stats(); rerr == io.EOF && int(st.MessagesReceived) != 2 {
+			propFail("C15 chunk-count case=%s assembler counted %d chunks, 2 were sent", name, st.MessagesReceived)
+		}
+	}
+}
+
 // --- end to end over loopback gRPC: bytes observed by the server-side reader equal the
 // concatenation of the chunks the client-side writer emitted.
 
@@ -494,6 +545,7 @@ func main() {
 	}
 	writerCases(r, n/4)
 	writerBigCases(r)
+	splitHugeChunkCases(r)
 	endToEnd(r)
 	sequentialStreams(r)
 	slowConsumerHalfClose(r)
